@@ -1,6 +1,11 @@
 # impl (P19): the small-step model of the engine loop, coq/Engine/Impl.v (deepens C02, C06, C07).
-# Theorems: coq/Props/Properties_impl.v (state monotonicity / at most one task per rule and build, the waitCount identity and
-#           inputsAvailable exactly once, the stalled engine's wait-for graph has no dead end, its edges are real dependencies).
+# Theorems: coq/Props/Properties_impl.v, for ALL rule sets, schedules and states of a build (any sequence of the loop's steps):
+#           impl_loop_iteration_steps (the loop is such a sequence), impl_state_monotone, impl_at_most_once (C02: one createTask and one
+#           inputsAvailable per key and build), impl_no_fault (no assert of the code fails), impl_waitcount (the waitCount identity),
+#           impl_inputs_available_at_zero, impl_protocol_partial (C06 automaton, request multiset = provided slots),
+#           impl_stall_no_dead_end + impl_edges_real (C07), impl_done_quiescent / impl_build_done_quiescent (repaired stall test);
+#           refuted with vm_compute witnesses: impl_stall_no_dead_end_refuted (empty cycle list, known C07 finding),
+#           impl_done_quiescent_v0_refuted (stall test before e39d106).
 # Tie D (exact interleaving): every generated history is run on the REAL core::BuildEngine (harness/cpp/engine_driver.cpp, with
 #        VERIF_ITER_MARKS=1 so that the trace carries `iter <n>` at the top of every loop iteration and `wait` where the engine
 #        would block) and on the extracted Impl model (ocaml/vmodel_impl.ml).  The two outputs must be IDENTICAL LINE BY LINE:
